@@ -2,8 +2,7 @@
 //! the source's value space.
 use crate::grid::*;
 use crate::model::{Rat, f64_to_rat};
-use arrow_buffer::i256;
-use arrow_schema::{DataType, IntervalUnit, TimeUnit};
+use arrow_schema::{DataType, IntervalUnit};
 use half::f16;
 use num_bigint::BigInt;
 
@@ -381,18 +380,5 @@ pub fn letters(src: &DataType, dst: &DataType, max_letters: usize) -> Vec<V> {
             out
         }
         _ => leaf_letters(src, dst, max_letters),
-    }
-}
-
-#[allow(dead_code)]
-pub fn zero_dec() -> V {
-    V::D(i256::ZERO)
-}
-
-#[allow(dead_code)]
-pub fn unit_of(dt: &DataType) -> Option<TimeUnit> {
-    match dt {
-        DataType::Time32(u) | DataType::Time64(u) | DataType::Timestamp(u, _) | DataType::Duration(u) => Some(*u),
-        _ => None,
     }
 }
